@@ -54,8 +54,57 @@ def memberResolution (m kind src dst sup owner n d : Sexp) : Option Ans := do
         | none => fail "fuel"
         | some res => if res == firstHit sel r (n, d) order then pass else fail "differs")
 
+/-- `(class a|b c)` | `(desc a|b f|m|r d)` | `(member f|m owner n d)` | `(mref class n d)` -/
+def queryFrom : Sexp → Option Query
+  | list [atom "class", which, c] => do
+    let which ← toTag? which; let c ← toJStr? c
+    if which == "a" then pure (.cls true c) else if which == "b" then pure (.cls false c) else none
+  | list [atom "desc", which, kind, d] => do
+    let which ← toTag? which; let kind ← toTag? kind; let d ← toJStr? d
+    if !(kind == "f" || kind == "m" || kind == "r") then none
+    else if which == "a" then pure (.desc true d) else if which == "b" then pure (.desc false d) else none
+  | list [atom "member", kind, owner, n, d] => do
+    let kind ← toTag? kind; let owner ← toJStr? owner; let n ← toJStr? n; let d ← toJStr? d
+    if kind == "f" then pure (.member true owner (n, d)) else if kind == "m" then pure (.member false owner (n, d)) else none
+  | list [atom "mref", cls, n, d] => do
+    let cls ← toJStr? cls; let n ← toJStr? n; let d ← toJStr? d
+    pure (.mref cls (n, d))
+  | _ => none
+
+/-- `(ok …)` / `err` per question; `none` = out of fuel somewhere (cyclic provider, not generated) -/
+def answerTo : Answer → Option Sexp
+  | .cls f mc any => some (list [tag "ok", list [ofOption ofJStr f, ofJStr mc, ofOption ofJStr any]])
+  | .desc (some d) => some (list [tag "ok", ofJStr d])
+  | .desc none => some (tag "err")
+  | .member f g h => some (list [tag "ok", list [ofOption keyTo f, ofOption keyTo g, ofOption refTo h]])
+  | .mref (some h) => some (list [tag "ok", refTo h])
+  | .mref none => some (tag "err")
+  | .fuel => none
+
 def handle (op : String) (args : List Sexp) : Option Ans :=
   match op, args with
+  | "map-seq", [m, src, dst, sup, qs] => do
+    let m ← mappingsFrom m; let src ← toNat? src; let dst ← toNat? dst; let sup ← supersFrom sup
+    let qs ← toListOf? queryFrom qs
+    pure (match instanceOf m src dst sup with
+      | none => .err "e"
+      | some i =>
+        match (mapSeq i qs).mapM answerTo with
+        | some l => .ok (list l)
+        | none => .skip "fuel")
+  | "oracle-seq-history-independent", [m, src, dst, sup, qs] => do
+    let m ← mappingsFrom m; let src ← toNat? src; let dst ← toNat? dst; let sup ← supersFrom sup
+    let qs ← toListOf? queryFrom qs
+    -- On the model this is `seq_pointwise` / `seq_history_independent`: `mapSeq` carries no state, so the comparison of
+    -- the sequence on one instance with every question on a fresh instance is trivially `pass`; it is evaluated anyway
+    -- (same domain predicate as the harness: both remappers can be built). The verdict that matters is the harness's,
+    -- computed on real `remapper_a` / `remapper_b` instances.
+    pure (match instanceOf m src dst sup with
+      | none => ood
+      | some i =>
+        match (List.range qs.length).find? (fun k => (mapSeq i qs)[k]? != (qs[k]?).map (mapOne i)) with
+        | none => pass
+        | some k => fail (toString k))
   | "map-class", [m, which, src, dst, c] => do
     let m ← mappingsFrom m; let which ← toTag? which; let src ← toNat? src; let dst ← toNat? dst; let c ← toJStr? c
     pure (match classTableOf which m src dst with
